@@ -248,13 +248,17 @@ func HashString(s string) uint64 { return hashString(s) }
 // The layout is verified by selfTest at start-up.
 //
 //go:norace
+//go:nocheckptr
 func chanClosed(addr uintptr) bool {
 	return *(*uint32)(unsafe.Pointer(addr + closedOffset)) != 0
 }
 
 var closedOffset uintptr
 
-func init() {
+func init() { probeChanLayout() }
+
+//go:nocheckptr
+func probeChanLayout() {
 	// find the offset of hchan.closed by closing a probe channel and looking for the word that flips
 	for _, off := range []uintptr{28, 32} {
 		c := make(chan int, 1)
@@ -279,6 +283,7 @@ func init() {
 }
 
 //go:norace
+//go:nocheckptr
 func chanLenCap(addr uintptr) (int, int) {
 	// hchan starts with qcount uint, dataqsiz uint
 	p := (*[2]uint)(unsafe.Pointer(addr))
@@ -309,13 +314,13 @@ func Run(cfg Config, st Strategy, body func()) *Result {
 	timerChans = map[uintptr]chan time.Time{}
 	timerMu.Unlock()
 	defer rt.Store(nil)
-	racectl.Disable()
-	defer racectl.Enable()
 	m := &Thread{name: "main", wake: make(chan response, 1)}
 	r.setIdent(m, 0)
 	r.main = m
 	r.register(m)
-	startThread(r, m, body)
+	startThread(r, m, body) // outside the disabled region: the go statement is a real edge
+	racectl.Disable()
+	defer racectl.Enable()
 	res := r.loop()
 	return res
 }
